@@ -807,9 +807,9 @@ where
             self.target_ratio = new_ratio;
             self.needed_input_size = (self.last_index as f32
                 + self.chunk_size as f32
-                    / (0.5 * self.resample_ratio as f32 + 0.5 * self.target_ratio as f32))
-                .ceil() as usize
-                + POLYNOMIAL_LEN_U;
+                    / (0.5 * self.resample_ratio as f32 + 0.5 * self.target_ratio as f32)
+                + POLYNOMIAL_LEN_U as f32)
+                .ceil() as usize;
             Ok(())
         } else {
             Err(ResampleError::RatioOutOfBounds {
